@@ -6,7 +6,11 @@
    the value the call returned (`ret`) and the caller's local after the call (`keep`).
      code 1: the compiler model's compile differs from the crate's (any component);
      code 2: the specification (ResolveSpec.spec_resolve / static_faults, independent of the compiler
-             model) disagrees with the error or with what ran, or the calling convention is violated. *)
+             model) disagrees with the error or with what ran, or the calling convention is violated;
+     code 10 (known finding N-C08-3): the call site's name designates the entry function `main` of the
+             root, the program compiles, and the run fails with ProcedureNotFound of main's handle (the
+             first function gets no label).  Any other observation in that class is an ordinary code 2,
+             and a case on which model and crate differ never carries code 10. *)
 From Cao Require Export CheckUtil CardAst Bytecode Compiler Wellformed C10Check ResolveSpec.
 From Cao Require Import Bits StdlibGen.
 Local Open Scope N_scope.
@@ -14,6 +18,7 @@ Local Open Scope N_scope.
 Inductive runobs :=
 | RNotRun
 | RRunErr
+| RNoProc (h : N)                     (* the run failed with ProcedureNotFound(Handle(h)) *)
 | RRan (ran : option Z) (params : list (option Z)) (ret keep : option Z).
 
 Inductive c08case :=
@@ -55,6 +60,26 @@ Definition expected_params (k : nat) : list (option Z) := rev (arg_values k 100%
 Definition expected_ret (pos : nat) : option Z :=
   if Nat.even pos then Some (9000 + Z.of_nat pos)%Z else None.
 
+(* the designated function is the entry function: `main` of the root module *)
+Definition is_root_main (f : fid) : bool :=
+  match fst f with [] => seq_eqb (snd f) w_main | _ => false end.
+
+(* decidable class predicate of N-C08-3 on a case: no static fault, and the specification designates the
+   root's `main` for the call site *)
+Definition class_call_main (c : c08case) : bool :=
+  match c with
+  | C08Case m limit _ _ ns name _ _ =>
+      let root := inject_std m in
+      match static_faults root limit, find_module root ns with
+      | [], Some cm =>
+          match spec_resolve root ns (m_imports cm) name with
+          | SFound f => is_root_main f
+          | _ => false
+          end
+      | _, _ => false
+      end
+  end.
+
 Definition spec_codes08 (c : c08case) : list N :=
   match c with
   | C08Case m limit _ cobs ns name nargs robs =>
@@ -79,6 +104,14 @@ Definition spec_codes08 (c : c08case) : list N :=
               | SSuperLimit =>
                   match cobs with CErr ESuperLimitReached _ => [] | _ => [2] end
               | SFound f =>
+                  if is_root_main f then
+                    (* class N-C08-3 *)
+                    match fn_position root [] w_main 0, cobs, robs with
+                    | Some pos, COk _, RNoProc h => if h =? handle_from_u64 (N.of_nat pos) then [10] else [2]
+                    | None, _, _ => [3]
+                    | _, _, _ => [2]
+                    end
+                  else
                   match fn_position root (fst f) (snd f) 0, function_at root f, cobs, robs with
                   | Some pos, Some fn, COk _, RRan ran params ret keep =>
                       if oz_eqb ran (Some (Z.of_nat pos))
